@@ -91,4 +91,13 @@ theorem literals_set_all_fields :
       "resetObjectChange:prev", "storageChange:account,key,prevalue", "suicideChange:account,prev,prevbalance",
       "touchChange:account,prev,prevDirty", "transientStorageChange:account,key,prevalue"] := by decide
 
+/-- the only package-level state of `src/storage/account` that any function assigns: the logger (start-up) and
+    the process-wide bound-token-contract cache, which is an explicit parameter of the model (`Cfg.tok`) and is
+    exercised in two processes (zero and non-zero contract). No scratch buffers, pools or other shared state. -/
+theorem package_state_writers : pkgStateWriters = ["Init:accountLog", "loadContractCache:rpgContractAddress"] := by decide
+
+/-- the fork / configuration flags read on this code path, each an input of the model: `IsProposal002` in the two
+    balance writers (`Cfg.p002`), `IsSub` only selects the slot position inside the Keccak pre-image (`Cfg.balKey`) -/
+theorem fork_flag_reads : forkReads = ["AddFT:IsProposal002", "GetERC20Binding:IsSub", "SubFT:IsProposal002"] := by decide
+
 end Rangers.Props.C04B
